@@ -1,16 +1,32 @@
-"""C13 (partial: reference / shape clauses) -- configuration loading is strict: mistakes are rejected, not ignored.
-Spec: specs/ConfigValidate (on top of specs/PipelineGraph: same configuration builder + defect-injecting
-actions).  Binding: harness/cfgvalidate (real confmap resolver + otelcol.ConfigProvider.Get + xconfmap.Validate,
-the path otelcol/collector.go takes before it builds a service).
-  1. TLC exhaustive design check: for every configuration x injected defects in the bounds, everything the
-     validation walk can report (otelcol.Config.Validate first-error sequence + nested pipeline validation,
-     any map order) is non-empty iff the configuration has an offending entry, and names only offending entries.
-  2. TLC prints every configuration of the same space with the statement-level verdict (reject, set of offending
-     entries); each is rendered as a document and loaded through the real code.  Compared: error <=> reject, and
-     the error text names (ids of) at least one of the offending entries the specification lists.
-Not covered here (DESIGN 4 C13): per-field faithfulness, unknown keys, redaction, nested Validate of built-in components.
+"""C13 (partial) -- configuration loading is strict: mistakes are rejected, not ignored.
+Specs: specs/ConfigValidate/ConfigValidate.tla (on top of specs/PipelineGraph: same configuration builder +
+defect-injecting actions) and specs/ConfigValidate/ValidateWalk.tla.  Binding: harness/cfgvalidate (real confmap
+resolver + otelcol.ConfigProvider.Get + xconfmap.Validate, the path otelcol/collector.go takes before it builds a
+service; `walk` mode: xconfmap.Validate on generated value trees).
+Clauses covered:
+  (a) reference / shape: undefined component referenced by a pipeline or by service::extensions, processor listed
+      twice, pipeline without receivers or exporters, id shared by a connector and a receiver/exporter, empty document.
+  (b) unknown key: WriteKey(place, key) writes one key at any place a document has (top level, service,
+      service::telemetry, ::logs, ::metrics, service::pipelines::<id>, the body of a component of each class at depth
+      1 / 2 (nested struct) / 3 (row of a map of structs)); the key alphabet makes every key the defect at one place
+      and its accepted NEGATIVE TWIN at another.  Specified: reject iff no field accepts the key there, error names
+      the key and its path; an accepted key must not be rejected and must be reflected in the typed configuration.
+      The driver reports the decoded configuration back; every written value (the twin, sibling settings written next
+      to it, pipeline lists, defaults of everything not written) is compared with what the document wrote.
+  (c) every nested validation rule is evaluated: ValidateWalk.tla models the reflective walk of xconfmap.Validate over
+      value trees (pointer / nil, struct by value, slices and maps of pointers and of values, map keys, interface
+      wrapped values, embedded squash, promoted Validate, renamed / missing / "-" tags, unexported fields, named
+      collection types with their own rule); TLC enumerates the trees, the driver builds each one from a fixed family
+      of Go types and calls xconfmap.Validate; compared: reported rules = failing reachable rules (parents failing or
+      valid), each at its path.
+  1. TLC exhaustive design checks (WalkSound; WalkComplete, WalkPaths, OnlyPromotedExtra).
+  2. TLC prints every configuration / value tree of the same spaces with the statement-level answer; each is loaded /
+     walked by the real code and compared.
+Still NOT covered (DESIGN 4 C13): per-field faithfulness of the built-in components' config structs (only the test
+component's fields and a few service::telemetry fields are compared), redaction / the effective configuration handed
+to extensions (conf.Marshal), the nested Validate() rules of built-in components themselves.
 """
-import json, os
+import json, os, re
 import vlib, graphlib
 
 PG = os.path.join(vlib.VERIF, "specs", "PipelineGraph")
@@ -22,7 +38,7 @@ def q(xs):
     return "{" + ", ".join('"%s"' % x for x in xs) + "}"
 
 
-def cfg_text(pipes, rcvs, procs, exps, conns, maxsize, exts, maxdef, invs):
+def cfg_text(pipes, rcvs, procs, exps, conns, maxsize, exts, maxdef, invs, maxkeys=0):
     return """SPECIFICATION VSpec
 CONSTANTS
   PipeSeq <- %s
@@ -34,22 +50,39 @@ CONSTANTS
   MaxSize = %d
   ExtIds = %s
   MaxDefects = %d
+  MaxKeys = %d
 INVARIANTS %s
 CHECK_DEADLOCK FALSE
-""" % (pipes, q(rcvs), q(procs), q(exps), q(conns), maxsize, q(exts), maxdef, invs)
+""" % (pipes, q(rcvs), q(procs), q(exps), q(conns), maxsize, q(exts), maxdef, maxkeys, invs)
+
+
+LOGS_LEVELS = ["debug", "warn", "error"]
+METRICS_LEVELS = {"none": "None", "basic": "Basic", "detailed": "Detailed"}
+JUNK = [1, "x", True, {"a": 1}, [1], None]
 
 
 def render(c, d):
-    """TLC-printed configuration -> document text (JSON is YAML).  Free choices (list order, empty list vs.
-    missing key, null vs. {} component body) are made with the seed: they do not change the meaning."""
+    """TLC-printed configuration -> (document text (JSON is YAML), document as written).  Free choices (list order, empty
+    list vs. missing key, null vs. {} component body, sibling settings of the test components, the values of written keys)
+    are made with the seed: they do not change the specified verdict."""
     if d["blank"]:
-        return c.rng.choice(["{}", ""])
+        return c.rng.choice(["{}", ""]), {}
     doc = {}
     for sec in ("receivers", "processors", "exporters", "connectors", "extensions"):
         ids = list(d[sec])
         c.rng.shuffle(ids)
         if ids or c.rng.random() < 0.3:
-            doc[sec] = {i: (None if c.rng.random() < 0.5 else {}) for i in ids}
+            doc[sec] = {}
+            for i in ids:
+                body = None if c.rng.random() < 0.4 else {}
+                if body is not None and c.rng.random() < 0.5:          # sibling settings that ARE accepted
+                    if c.rng.random() < 0.6:
+                        body["limit"] = c.rng.randrange(100)
+                    if c.rng.random() < 0.4:
+                        body["nested"] = {"name": "n%d" % c.rng.randrange(9)}
+                    if c.rng.random() < 0.3:
+                        body["table"] = {"rowb": {"weight": c.rng.randrange(9)}}
+                doc[sec][i] = body
     svc = {}
     if d["sexts"] or c.rng.random() < 0.3:
         x = list(d["sexts"])
@@ -70,7 +103,72 @@ def render(c, d):
         pipes["%s/%s" % (p["sig"], p["name"])] = body
     svc["pipelines"] = pipes
     doc["service"] = svc
-    return json.dumps(doc)
+    for k in d.get("keys", []):
+        kind, key = k["kind"], k["key"]
+        if k["accepted"]:
+            val = {"logs": lambda: c.rng.choice(LOGS_LEVELS), "metrics": lambda: c.rng.choice(sorted(METRICS_LEVELS)),
+                   "telemetry": lambda: {"k%d" % c.rng.randrange(3): "v%d" % c.rng.randrange(9)},
+                   "comp1": lambda: "h:%d" % c.rng.randrange(1000), "comp2": lambda: True,
+                   "comp3": lambda: c.rng.randrange(1, 50)}[kind]()
+        else:
+            val = c.rng.choice(JUNK)
+
+        def sub(m, name):
+            if not isinstance(m.get(name), dict):
+                m[name] = {}
+            return m[name]
+        if kind == "top":
+            doc[key] = val
+        elif kind == "service":
+            svc[key] = val
+        elif kind == "telemetry":
+            sub(svc, "telemetry")[key] = val
+        elif kind in ("logs", "metrics"):
+            sub(sub(svc, "telemetry"), kind)[key] = val
+        elif kind == "pipeline":
+            pipes["%s/%s" % (k["a"], k["b"])][key] = val
+        else:
+            body = sub(doc[k["a"]], k["b"])
+            if kind == "comp1":
+                body[key] = val
+            elif kind == "comp2":
+                sub(body, "nested")[key] = val
+            else:
+                sub(sub(body, "table"), "rowa")[key] = val
+    return json.dumps(doc), doc
+
+
+def expected_view(doc):
+    """the typed configuration a document must decode to (factory defaults overlaid by exactly the written keys)"""
+    svc = doc.get("service") or {}
+    tel = svc.get("telemetry") or {}
+    v = dict(logs_level=(tel.get("logs") or {}).get("level", "info"),
+             metrics_level=METRICS_LEVELS.get((tel.get("metrics") or {}).get("level"), "Normal"),
+             resource=tel.get("resource"), comps={}, pipelines={}, sexts=list(svc.get("extensions") or []))
+    for sec in ("receivers", "processors", "exporters", "connectors", "extensions"):
+        v["comps"][sec] = {}
+        for i, body in (doc.get(sec) or {}).items():
+            body = body or {}
+            nested = body.get("nested") or {}
+            table = body.get("table")
+            v["comps"][sec][i] = dict(endpoint=body.get("endpoint", "default:1"), limit=body.get("limit", 7),
+                                      nested=dict(flag=nested.get("flag", False), name=nested.get("name", "dflt")),
+                                      table=None if table is None else {r: dict(weight=(row or {}).get("weight", 0)) for r, row in table.items()})
+    for pid, body in (svc.get("pipelines") or {}).items():
+        v["pipelines"][pid] = {k: list(body.get(k) or []) for k in ("receivers", "processors", "exporters")}
+    return v
+
+
+def names_key(defect, text):
+    """unknown key: the decoder's (multi-line) error must name the key and the place it was written at"""
+    _, kind, a, b, key = defect
+    if not re.search(r"invalid keys: [^\n]*(?<![\w])%s(?![\w])" % re.escape(key), text):
+        return False
+    want = {"top": ["'' has invalid keys"], "service": ["'service' has invalid keys"], "telemetry": ["service.telemetry"],
+            "logs": ["service.telemetry", "'logs'"], "metrics": ["service.telemetry", "'metrics'"],
+            "pipeline": ["pipelines[%s/%s]" % (a, b)], "comp1": ["'%s'" % a, '"%s"' % b],
+            "comp2": ["'%s'" % a, '"%s"' % b, "'nested'"], "comp3": ["'%s'" % a, '"%s"' % b, "table[rowa]"]}[kind]
+    return all(w in text for w in want)
 
 
 def names(defect, line):
@@ -102,8 +200,24 @@ def compare(d, o):
                 "first %r, then %r" % (err[:200], o["err2"][:200]))
     if d["reject"]:
         lines = err.split("\n")
-        if not any(names(x, ln) for x in d["defects"] for ln in lines):
+        ukeys = [x for x in d["defects"] if x[0] == "unknownkey"]
+        if ukeys:
+            # the document does not decode: the decoder must name (at least one of) the unknown keys with its place
+            if o["stage"] != "get" or not any(names_key(x, err) for x in ukeys):
+                return "rejected, but the error names none of the unknown keys %s with its place: (%s) %s" % (ukeys[:3], o["stage"], err[:400])
+        elif not any(names(x, ln) for x in d["defects"] for ln in lines):
             return "rejected, but the error names none of the offending entries %s: %s" % (d["defects"][:3], err[:300])
+    # faithfulness of what was decoded: every written key (accepted twins, sibling settings, lists) and every default
+    if o.get("view") is not None and d.get("_written") is not None:
+        want = expected_view(d["_written"])
+        got = o["view"]
+        if got.get("resource") == {}:
+            got["resource"] = None if want["resource"] is None else got["resource"]
+        if want != got:
+            diff = [k for k in want if want[k] != got.get(k)]
+            k = diff[0]
+            return "typed configuration does not reflect the document at %s: written/default %s, decoded %s" % (
+                k, json.dumps(want[k], sort_keys=True)[:300], json.dumps(got.get(k), sort_keys=True)[:300])
     return None
 
 
@@ -111,7 +225,11 @@ def run_docs(c, binp, docs, universe_ids, label):
     inp = os.path.join(c.work, "docs_%s.ndjson" % label)
     out = os.path.join(c.work, "res_%s.ndjson" % label)
     types = {k: universe_ids for k in ("receivers", "processors", "exporters", "connectors", "extensions")}
-    texts = [d.get("_doc") or render(c, d) for d in docs]
+    texts = []
+    for d in docs:
+        if d.get("_doc") is None:
+            d["_doc"], d["_written"] = render(c, d)
+        texts.append(d["_doc"])
     vlib.write_ndjson(inp, [dict(doc=t, types=types) for t in texts])
     c.run([binp, inp, out], timeout=1800)
     res = vlib.read_ndjson(out)
@@ -123,7 +241,7 @@ def run_docs(c, binp, docs, universe_ids, label):
         if why:
             nbad += 1
             if nbad <= 5:
-                c.violation("%s; document %s" % (why, t[:400]), replay_obj=dict(expected=dict(d, _doc=t), universe=universe_ids, observed=o))
+                c.violation("%s; document %s" % (why, t[:400]), replay_obj=dict(expected=d, universe=universe_ids, observed=o))
     c.log("loaded %d documents (%s): %d mismatches" % (len(docs), label, nbad))
     return res, texts
 
@@ -138,6 +256,89 @@ def dedup(vals):
     return out
 
 
+# ------------------------------------------------------------------ clause (c): the validation walk
+def rule_id(rule):
+    return "/".join(rule[0]) + "#" + rule[1]
+
+
+def seg_texts(path, rid):
+    return [(rid if t == "<ID>" else t, k) for t, k in path]
+
+
+def compare_walk(d, o):
+    """-> (violation or None, drift or None)"""
+    if o.get("panic"):
+        return "xconfmap.Validate panicked: %s" % o["panic"], None
+    if o.get("err"):
+        raise vlib.Inconclusive("walk driver could not build a generated tree: %s" % o["err"])
+    failing = {rule_id(r) for r in d["failing"]}
+    obs = [(r["path"].split("::") if r["path"] else [], r["msg"][4:] if r["msg"].startswith("bad:") else r["msg"]) for r in o["reports"]]
+    got = {m for _, m in obs}
+    if failing - got:
+        return "validation rule(s) not evaluated / not reported: %s (reported: %s)" % (sorted(failing - got), sorted(got)), None
+    if got - failing:
+        return "reported validation failure(s) that no reachable rule produced: %s" % sorted(got - failing), None
+    drift = None
+    for e in d["expected"]:
+        rid = rule_id(e["rule"])
+        want = seg_texts(e["path"], rid)
+        paths = [p for p, m in obs if m == rid]
+        if [t for t, _ in want] in paths:
+            continue
+        # no report of this rule at its path: which kind of segment differs?
+        worst = None
+        for p in paths:
+            if len(p) == len(want) and all(a == t or k in ("lower", "squash", "dash") for a, (t, k) in zip(p, want)):
+                worst = "convention"
+        if worst == "convention":
+            drift = "rule %s reported at %s, model path %s (differs only in a code-convention segment)" % (rid, paths, "::".join(t for t, _ in want))
+        else:
+            return "failing rule %s is reported with the wrong path %s, its entry is %s" % (
+                rid, ["::".join(p) for p in paths], "::".join(t for t, _ in want)), None
+    if drift is None:
+        wantbag = sorted(("::".join(t for t, _ in seg_texts(r["path"], rule_id(r["rule"]))), rule_id(r["rule"])) for r in d["reports"])
+        gotbag = sorted(("::".join(p), m) for p, m in obs)
+        if wantbag != gotbag:
+            drift = "reports differ from the implementation-shaped walk: model %s, real %s" % (wantbag[:6], gotbag[:6])
+    return None, drift
+
+
+def walk_cfg(depth, nodes, wraps, bad, invs):
+    return """SPECIFICATION WSpec
+CONSTANTS
+  MaxDepth = %d
+  MaxNodes = %d
+  MaxWraps = %d
+  MaxBad = %d
+INVARIANTS %s
+CHECK_DEADLOCK FALSE
+""" % (depth, nodes, wraps, bad, invs)
+
+
+def run_trees(c, binp, trees, label):
+    inp = os.path.join(c.work, "trees_%s.ndjson" % label)
+    out = os.path.join(c.work, "walk_%s.ndjson" % label)
+    vlib.write_ndjson(inp, [dict(nodes=t["nodes"], wraps=t["wraps"], bad=t["bad"]) for t in trees])
+    c.run([binp, "walk", inp, out], timeout=1800)
+    res = vlib.read_ndjson(out)
+    if len(res) != len(trees):
+        raise vlib.Inconclusive("driver walked %d of %d trees" % (len(res), len(trees)))
+    nbad = ndrift = 0
+    for t, o in zip(trees, res):
+        viol, drift = compare_walk(t, o)
+        if viol:
+            nbad += 1
+            if nbad <= 5:
+                c.violation("%s; tree nodes %s wraps %s bad %s" % (viol, t["nodes"], t["wraps"], t["bad"]),
+                            replay_obj=dict(kind="walk", tree=t, observed=o))
+        elif drift:
+            ndrift += 1
+            if ndrift <= 2:
+                c.model_drift(drift)
+    c.log("walked %d value trees (%s): %d mismatches, %d drifts" % (len(trees), label, nbad, ndrift))
+    return res
+
+
 def run(c):
     qk = c.quick()
     binp = graphlib.go_build(c, "cfgvalidate")
@@ -145,22 +346,35 @@ def run(c):
         rp = json.load(open(c.replay))["replay"]
         c.tlc_must_pass("ConfigValidate", "ConfigValidate", files=PGFILES, timeout=600, label="design",
                         cfg_text=cfg_text("Pipes2", ["r1"], ["p1"], ["e1"], ["ca1"], 3, ["x1"], 1, "WalkSound"))
-        run_docs(c, binp, [rp["expected"]], rp["universe"], "replay")
+        if rp.get("kind") == "walk":
+            run_trees(c, binp, [rp["tree"]], "replay")
+            c.sample(dict(kind="replayed value tree", tree={k: rp["tree"][k] for k in ("nodes", "wraps", "bad")}))
+        else:
+            run_docs(c, binp, [rp["expected"]], rp["universe"], "replay")
+            c.sample(dict(kind="replayed document", doc=rp["expected"]["_doc"]))
         c.traces_validated += 1
-        c.sample(dict(kind="replayed document", doc=rp["expected"]["_doc"]))
         return
-    universes = [("Pipes2", ["r1"], ["p1", "p2"], ["e1"], ["ca1"], 4, ["x1", "x2"], 2)] if qk else \
-                [("Pipes2", ["r1"], ["p1", "p2"], ["e1"], ["ca1"], 5, ["x1", "x2"], 2),
-                 ("Pipes2", ["r1"], ["p1", "p2"], ["e1"], ["ca1"], 6, ["x1"], 2),
-                 ("Pipes3", ["r1"], ["p1"], ["e1"], ["ca1", "cs1"], 4, ["x1"], 2),
-                 ("Pipes2", ["r1"], ["p1", "p2"], ["e1"], ["ca1"], 4, ["x1"], 3),
-                 ("Pipes3", ["r1", "r2"], ["p1"], ["e1"], ["ca1"], 5, ["x1", "x2"], 2),
-                 ("Pipes2", ["r1"], ["p1", "p2"], ["e1"], ["ca1"], 6, ["x1", "x2"], 2)]
+    # (pipes, rcvs, procs, exps, conns, MaxSize, exts, MaxDefects, MaxKeys)
+    universes = [("Pipes2", ["r1"], ["p1", "p2"], ["e1"], ["ca1"], 4, ["x1", "x2"], 2, 0),
+                 ("Pipes2", ["r1"], ["p1"], ["e1"], ["ca1"], 3, ["x1"], 0, 1)] if qk else \
+                [("Pipes2", ["r1"], ["p1", "p2"], ["e1"], ["ca1"], 5, ["x1", "x2"], 2, 0),
+                 ("Pipes2", ["r1"], ["p1", "p2"], ["e1"], ["ca1"], 6, ["x1"], 2, 0),
+                 ("Pipes3", ["r1"], ["p1"], ["e1"], ["ca1", "cs1"], 4, ["x1"], 2, 0),
+                 ("Pipes2", ["r1"], ["p1", "p2"], ["e1"], ["ca1"], 4, ["x1"], 3, 0),
+                 ("Pipes3", ["r1", "r2"], ["p1"], ["e1"], ["ca1"], 5, ["x1", "x2"], 2, 0),
+                 ("Pipes2", ["r1"], ["p1", "p2"], ["e1"], ["ca1"], 6, ["x1", "x2"], 2, 0),
+                 ("Pipes2", ["r1"], ["p1"], ["e1"], ["ca1"], 3, ["x1"], 1, 1),
+                 ("Pipes2", ["r1"], ["p1"], ["e1"], ["ca1"], 2, ["x1"], 1, 2),
+                 ("Pipes2", ["r1", "r2"], ["p1"], ["e1"], ["ca1"], 4, ["x1"], 0, 1)]
     total = nontrivial = 0
     for k, u in enumerate(universes):
-        c.tlc_must_pass("ConfigValidate", "ConfigValidate", cfg_text=cfg_text(*u, "WalkSound"), coverage=True, files=PGFILES,
+        args = u[:8]
+        c.tlc_must_pass("ConfigValidate", "ConfigValidate", cfg_text=cfg_text(*args, "WalkSound", maxkeys=u[8]), coverage=True, files=PGFILES,
+                        # (the WriteKey disjunct quantifies over a state-dependent set: TLC reports it under the name VNext)
+                        vacuous_ok=() if (u[8] and u[7]) else ("WriteKey", "VNext") if u[7] else
+                                   ("DanglingRef", "DupProcessor", "EmptyPipeline", "AmbiguousID", "Blank"),
                         timeout=1500, label="design%d" % k)
-        r = c.tlc("ConfigValidate", "ConfigValidateGen", cfg_text=cfg_text(*u, "EmitDoc"), workers=1, files=PGFILES, timeout=1500,
+        r = c.tlc("ConfigValidate", "ConfigValidateGen", cfg_text=cfg_text(*args, "EmitDoc", maxkeys=u[8]), workers=1, files=PGFILES, timeout=1500,
                   label="gen%d" % k, count=False, heap="8g")
         if not r.ok:
             raise vlib.Inconclusive("generator failed: %s\n%s" % (r.error, r.out[-1500:]))
@@ -171,23 +385,57 @@ def run(c):
         res, texts = run_docs(c, binp, docs, ids, "u%d" % k)
         total += len(docs)
         nontrivial += sum(1 for d in docs if d["reject"])
-        c.log("universe %d: %d configurations (%d to be rejected)" % (k, len(docs), sum(1 for d in docs if d["reject"])))
-        pick = [i for i, d in enumerate(docs) if len(d["defects"]) >= 2 and d["pipes"]]
+        nkeys = sum(1 for d in docs if d["keys"])
+        c.log("universe %d: %d configurations (%d to be rejected; %d with a written key, %d of them accepted twins)" % (
+            k, len(docs), sum(1 for d in docs if d["reject"]), nkeys, sum(1 for d in docs if d["keys"] and all(x["accepted"] for x in d["keys"]))))
+        pick = [i for i, d in enumerate(docs) if (d["keys"] if u[8] else len(d["defects"]) >= 2) and d["pipes"]]
         if pick:
             i = pick[len(pick) // 2]
             c.sample(dict(kind="loaded document", doc=texts[i], specified=dict(reject=docs[i]["reject"], defects=docs[i]["defects"]),
-                          observed=res[i]))
+                          observed=dict(stage=res[i]["stage"], err=res[i]["err"])))
+
+    # clause (c): value trees
+    walks = [(2, 1, 1, 2), (2, 2, 1, 1)] if qk else [(2, 2, 1, 2), (3, 3, 1, 1), (2, 1, 1, 4)]
+    ntrees = 0
+    for k, w in enumerate(walks):
+        r = c.tlc("ConfigValidate", "ValidateWalkGen", cfg_text=walk_cfg(*w, "WalkComplete WalkPaths OnlyPromotedExtra EmitTree"), workers=1,
+                  timeout=1500, label="walk%d" % k, count=True, heap="8g")
+        if not r.ok:
+            raise vlib.Inconclusive("value-tree design check / generator failed: %s\n%s" % (r.error, (r.trace_text or r.out)[-1500:]))
+        trees = dedup(r.printed)
+        if not trees:
+            raise vlib.Inconclusive("value-tree generator printed nothing")
+        res = run_trees(c, binp, trees, "w%d" % k)
+        ntrees += len(trees)
+        nontrivial += sum(1 for t in trees if t["failing"])
+        pick = [i for i, t in enumerate(trees) if len(t["failing"]) >= 2 and t["nodes"]]
+        if pick and k == 0:
+            i = pick[len(pick) // 2]
+            c.sample(dict(kind="walked value tree", tree={x: trees[i][x] for x in ("nodes", "wraps", "bad")},
+                          specified=[["::".join(t for t, _ in seg_texts(e["path"], rule_id(e["rule"]))), rule_id(e["rule"])] for e in trees[i]["expected"]],
+                          observed=res[i]["reports"]))
+    total += ntrees
     c.traces_validated += total
     c.evaluations = total
     c.exhaustive = True
-    c.extra["level_note"] = ("partial: only the reference/shape clauses of C13 (undefined component referenced by a pipeline or by "
-                             "service::extensions, processor listed twice, pipeline without receivers or exporters, id shared by a "
-                             "connector and a receiver/exporter, empty configuration); per-field faithfulness, unknown keys, redaction "
-                             "and nested Validate() of built-in components are not covered by this technique")
+    c.extra["level_note"] = ("partial. Covered: (a) the reference/shape clauses (undefined component referenced by a pipeline or by "
+                             "service::extensions, processor listed twice, pipeline without receivers or exporters, id shared by a connector "
+                             "and a receiver/exporter, empty configuration); (b) a key no field accepts, at every place of a document (top "
+                             "level, service, service::telemetry, ::logs, ::metrics, service::pipelines::<id>, inside a component of each "
+                             "class at depth 1-3) is rejected naming key and place, while the same key where a field accepts it is decoded "
+                             "faithfully together with sibling settings and defaults (test component config + a few telemetry fields); "
+                             "(c) every nested validation rule is evaluated and reported at its path by the xconfmap.Validate walk, over "
+                             "generated value trees covering every kind of nesting. NOT covered: per-field faithfulness of the built-in "
+                             "components' own config structs, redaction / the effective configuration marshalled for extensions "
+                             "(conf.Marshal), the Validate() rules of built-in components themselves")
     c.assumptions += ["'names the offending entry' is checked as: one line of the joined error contains the pipeline id and the quoted "
-                      "component id (resp. the extension / connector id) of at least one offending entry the specification lists",
-                      "components are test factories with empty configs, one type per id (an ambiguous id needs a receiver/exporter "
-                      "factory of the connector's type)"]
-    c.finish_args = dict(rule="every configuration of the C09 builder with at most MaxSize references followed by at most MaxDefects "
-                              "defect injections, enumerated by TLC; non-trivial = must be rejected",
+                      "component id (resp. the extension / connector id) of at least one offending entry the specification lists; for an "
+                      "unknown key: the decoder's error lists the key after 'invalid keys:' and contains the place's path elements",
+                      "components are test factories (one type per id) whose config has real fields: endpoint, limit, nested{flag,name}, "
+                      "table{row{weight}}",
+                      "path segments of the validation walk that are conventions of the code (lower-cased field name for untagged and "
+                      "squashed fields, '-' for fields tagged '-') are compared as model drift, not as violations"]
+    c.finish_args = dict(rule="every configuration of the C09 builder with at most MaxSize references followed by at most MaxDefects defect "
+                              "injections and at most MaxKeys written keys (place x key alphabet), and every value tree with at most MaxNodes "
+                              "optional nodes / MaxBad failing rules, enumerated by TLC; non-trivial = must be rejected / has a failing rule",
                          distinct_nontrivial=nontrivial)
